@@ -433,6 +433,35 @@ theorem nsiDegree_unit (directed : Bool) (n : Nat) (a : Adj) (i : Nat) (hi : i <
       ← Rat.natCast_add, if_true]
     congr 1; omega
 
+private theorem sumToQ_cast (f : Nat → Nat) (m : Nat) :
+    sumToQ m (fun j => ((f j : Nat) : Rat)) = ((sumTo m f : Nat) : Rat) := by
+  induction m with
+  | zero => simp [sumToQ, sumTo]
+  | succ m ih => rw [sumToQ_succ, sumTo_succ, ih, Rat.natCast_add]
+
+/-- `nsi_closeness()` with unit node weights on a node that reaches every node:
+`N / (Σ_j d_ij + 1)` — the documented "distance 1 to itself" variant of `(N-1)/Σ_j d_ij`. -/
+theorem nsiCloseness_unit (n : Nat) (d : Nat → Nat → Option Nat) (i : Nat) (hi : i < n)
+    (hall : ∀ j, j < n → (d i j).isSome = true) :
+    nsiCloseness n d (fun _ => 1) i
+      = (n : Rat) / (((sumTo n fun j => (d i j).getD 0) + 1 : Nat) : Rat) := by
+  have hc : ((List.range n).all fun j => (d i j).isSome) = true := by
+    simp only [List.all_eq_true, List.mem_range]; exact hall
+  simp only [nsiCloseness, hc, if_true, Rat.one_mul]
+  have h1 : ∀ m : Nat, sumToQ m (fun _ => (1 : Rat)) = (m : Rat) := by
+    intro m
+    induction m with
+    | zero => simp [sumToQ]
+    | succ m ih => rw [sumToQ_succ, ih, Rat.natCast_add]; simp
+  rw [h1 n, sumToQ_cast (fun j => (d i j).getD 0 + (if i = j then 1 else 0)) n]
+  congr 2
+  have := sum_diag_indicator i n
+  simp only [sumTo_eq_sumL, hi, if_true] at this
+  simp only [sumTo_eq_sumL, sumL_add]
+  rw [show (fun j => if i = j then 1 else 0) = fun j => b2n (i == j) from by
+    funext j; by_cases h : i = j <;> simp [h, b2n]]
+  rw [this]
+
 /-! ### non-vacuity: the hypotheses are satisfiable by non-trivial graphs and the counts are not 0 -/
 
 /-- the 5-clique as an adjacency predicate -/
